@@ -340,7 +340,11 @@ end C17Ex
 model was written against them; `Generated.keyFns_storage` is recomputed from the source on every
 run (the declarations are listed in Generated/KeyFacts.lean). -/
 def C17_expectedKeys : List (String × String) := [
+  ("x/storage/types/key_client_usage.go:var _…", "9f4fce2c5ae85adc"),
+  ("x/storage/types/key_client_usage.go:const ClientUsageKeyPrefix…", "5b1d441d06f4cc71"),
   ("x/storage/types/key_client_usage.go:ClientUsageKey", "dc7228a1f094ec09"),
+  ("x/storage/types/key_files.go:var _…", "9f4fce2c5ae85adc"),
+  ("x/storage/types/key_files.go:const FileSecondaryKeyPrefix…", "c2b8a0b2f787cc2c"),
   ("x/storage/types/key_files.go:FilesPrimaryKey", "84e99d172d986bcc"),
   ("x/storage/types/key_files.go:FilesMerklePrefix", "7144d5ed970c299c"),
   ("x/storage/types/key_files.go:FilesOwnerPrefix", "b5fae699da92120b"),
@@ -348,14 +352,21 @@ def C17_expectedKeys : List (String × String) := [
   ("x/storage/types/key_files.go:ProofKey", "03b9d69bfd1ff699"),
   ("x/storage/types/key_files.go:ProofPrefix", "c8769268c3e52544"),
   ("x/storage/types/key_files.go:LegacyActiveDealsKey", "c4aeb0f020bffe73"),
+  ("x/storage/types/key_pay_blocks.go:var _…", "9f4fce2c5ae85adc"),
+  ("x/storage/types/key_pay_blocks.go:const PayBlocksKeyPrefix…", "1cab8528a038c882"),
   ("x/storage/types/key_pay_blocks.go:PayBlocksKey", "77839ff6b75370dd"),
+  ("x/storage/types/key_payment_info.go:var _…", "9f4fce2c5ae85adc"),
+  ("x/storage/types/key_payment_info.go:const StoragePaymentInfoKeyPrefix…", "abad45a51db5951d"),
   ("x/storage/types/key_payment_info.go:StoragePaymentInfoKey", "9176a7b3606c44ef"),
   ("x/storage/types/key_payment_info.go:PaymentGaugeKey", "671fc2de1ec35857"),
+  ("x/storage/types/key_providers.go:var _…", "9f4fce2c5ae85adc"),
+  ("x/storage/types/key_providers.go:const ProvidersKeyPrefix…", "9d7e274422e734eb"),
   ("x/storage/types/key_providers.go:ActiveProvidersKey", "c7775e72ba0d9346"),
   ("x/storage/types/key_providers.go:ProvidersKey", "dbb47435d90d275b"),
   ("x/storage/types/key_providers.go:AttestationKey", "22260edd874149f9"),
   ("x/storage/types/key_providers.go:ReportKey", "9e44430f7ad376b5"),
   ("x/storage/types/key_providers.go:CollateralKey", "63d6996a6cf1539e"),
+  ("x/storage/types/keys.go:const ModuleName…", "05fb6d7b8d5c103c"),
   ("x/storage/types/keys.go:gaugeName", "6c707ddfcf503004"),
   ("x/storage/types/keys.go:GetGaugeAccount", "2648a826edaadd84"),
   ("x/storage/types/keys.go:KeyPrefix", "caccc65e7667915d")]
